@@ -819,6 +819,35 @@ fn run_push_insert(input: &[u8]) -> Outcome {
     }
 }
 
+/// the edits that take the rule kind from the request path (`/pushrules/global/{kind}/{ruleId}`): any string is
+/// a RuleKind (unknown ones are kept), any string a rule id
+fn run_push_edit_by_path(input: &[u8]) -> Outcome {
+    #[derive(serde::Deserialize)]
+    struct In {
+        kind: String,
+        rule_id: String,
+    }
+    let p: In = match serde_json::from_slice(input) {
+        Ok(p) => p,
+        Err(e) => return rej(e),
+    };
+    let mut rs = Ruleset::server_default(<&ruma_common::UserId>::try_from("@u:example.org").expect("user id"));
+    // one user rule per kind that has string ids, so that valid requests succeed
+    rs.insert(NewPushRule::Override(NewConditionalPushRule::new("mine".into(), vec![], vec![])), None, None).expect("insert");
+    rs.insert(NewPushRule::Content(NewPatternedPushRule::new("mine".into(), "word".into(), vec![])), None, None).expect("insert");
+    let kind = RuleKind::from(p.kind.as_str());
+    let mut d = Dig::new();
+    d.dbg(&rs.get(kind.clone(), &p.rule_id).is_some());
+    d.dbg(&rs.set_enabled(kind.clone(), &p.rule_id, false).map_err(|e| e.to_string()));
+    d.dbg(&rs.set_actions(kind.clone(), &p.rule_id, vec![]).map_err(|e| e.to_string()));
+    let r = rs.remove(kind, &p.rule_id);
+    d.dbg(&rs);
+    match r {
+        Ok(()) => d.done(),
+        Err(e) => rej(e),
+    }
+}
+
 fn push_insert_seeds() -> Vec<Value> {
     let rs = seeds::ruleset();
     let full = rs[0].clone();
@@ -1504,6 +1533,14 @@ pub fn entries() -> Vec<Entry> {
             run_push_pattern,
         ),
         entry("push_insert", Kind::Json, bs(push_insert_seeds()), b"{,]e.*", vec![], run_push_insert),
+        entry(
+            "push_edit_by_path",
+            Kind::Json,
+            bs(vec![json!({"kind": "override", "rule_id": "mine"}), json!({"kind": "content", "rule_id": "mine"})]),
+            JSON_EXTRA,
+            bs(vec![json!({"kind": "content", "rule_id": ".m.rule.contains_user_name"}), json!({"kind": "room", "rule_id": "!r:example.org"}), json!({"kind": "Override", "rule_id": "mine"})]),
+            run_push_edit_by_path,
+        ),
         entry("verify_json", Kind::Json, bs(verify_json_seeds()), JSON_EXTRA, vec![], run_verify_json),
         entry("verify_event", Kind::Json, bs(verify_event_seeds()), JSON_EXTRA, vec![], run_verify_event),
         entry("hash_and_sign_event", Kind::Json, bs(event_in_seeds()), JSON_EXTRA, vec![], run_hash_and_sign_event),
